@@ -63,10 +63,8 @@ let () = iter_lines (fun line ->
     let (hs1, ids1, rest) = parse_pairs n ws in
     let (hs2, ids2, _) = parse_pairs n rest in
     let mk hs ids = Array.to_list (Array.init n (fun i -> (hs.(i), z_of_string ids.(i)))) in
-    let perm = Checker.perm_check (mk hs1 ids1) (mk hs2 ids2) in
-    let hash zi = hs2.(int_of_z zi) in
-    let eqf za zb = ids2.(int_of_z za) = ids2.(int_of_z zb) in
-    let srt = Instance.coq_IsSorted (z_of_int n) hash (fun z -> z) eqf in
-    Printf.printf "%d %s\n" (if perm then 1 else 0) (outcome_str (fun b -> if b then "1" else "0") srt)
+    (* the verified checker Instance.check_sort_output (C17_sort_output_checker_sound_partial) *)
+    let ok = Instance.check_sort_output (mk hs1 ids1) (mk hs2 ids2) in
+    Printf.printf "%d %d\n" (if ok then 1 else 0) (if ok then 1 else 0)
   | _ -> print_endline "?"
   with e -> print_endline ("EXC " ^ Printexc.to_string e))
